@@ -1054,6 +1054,10 @@ class UnitBuilder:
                     j += 1
                 end = j
             return body[li:end + 1]
+        m = re.match(r"^let_init (\w+)(?:#(\d+))?$", anchor)
+        if m:
+            _, lo, semi = find_let(body, m.group(1), int(m.group(2) or 1))
+            return body[lo:semi]
         m = re.match(r"^closure_body chain (\w+) after (\w+)(?:#(\d+)| (\d+))?$", anchor)
         if m:
             # the first `.METH(` call after the K-th `.AFTER(` call, whose argument is a closure
@@ -1131,9 +1135,10 @@ class UnitBuilder:
             toks = list(self.cut_fragment(body, anchor, fnq))
             self.rep.cuts.append({"item": f"{ws.name}.{name} ({anchor})", "file": s.rel,
                                   "bytes": [toks[0].pos, toks[-1].end], "lines": [s.line(toks[0].pos), s.line(toks[-1].end)]})
-            toks = rule_R1(toks, self.rep)
-            toks = rule_R2(toks, self.rep)
-            toks = rule_R3(toks, self.rep)
+            if self.spec.mode == "verus":
+                toks = rule_R1(toks, self.rep)
+                toks = rule_R2(toks, self.rep)
+                toks = rule_R3(toks, self.rep)
             frags[name] = toks
             self.rep.rule("R11 fragment cut out of a function body and wrapped in a synthesised fn")
         lo_line = self.out.line
